@@ -421,6 +421,19 @@ func deadLetters(o *Obs, sim *Sim) error {
 	return nil
 }
 
+// ---- C02 --------------------------------------------------------------------
+
+// CheckC02: Receive is serial.  The histories are the same as for C04/C05; the observation is an
+// entry/exit counter around every invocation of the target's Receive (lifecycle messages and all
+// incarnations included).  Gates make the check sharp: while the receiver is blocked inside
+// Receive every further delivery, on whichever goroutine, is an overlap.
+func CheckC02(spec Spec, o *Obs, sim *Sim) error {
+	if o.Overlap != "" {
+		return fmt.Errorf("%s; receiver log: %s", o.Overlap, fmtLog(o.recv()))
+	}
+	return nil
+}
+
 // ---- C07 --------------------------------------------------------------------
 
 // CheckC07: Stop/Poison contexts.
@@ -660,6 +673,7 @@ type Features struct {
 	Pills             int
 	Respawns          int
 	StartGate         bool
+	Gates             int  // gate ops (the receiver blocked inside Receive)
 	BatchCross        bool // a queued window larger than the batch size
 	SpawnSends        bool
 	DeadLetters       int
@@ -732,6 +746,7 @@ func Classify(spec Spec, sim *Sim) Features {
 		switch o.K {
 		case "gate":
 			gated = true
+			f.Gates++
 			win = nil
 		case "release":
 			if gated {
